@@ -10,6 +10,7 @@ single ELog node, then (log N + added + priors) / num_data; the LOO model condit
 all other observations BY DEFINITION (n inversions of the (n-1)x(n-1) sub-matrices).
 The gradient half of the property is a labelled TEST: autograd gradient w.r.t. every raw
 hyper-parameter against central differences of the Coq-evaluated objective."""
+import copy
 import itertools
 import json
 import math
@@ -650,6 +651,15 @@ def build(case):
         added.append((a["where"], val))
     model = GP(X, y, lik, mean, kern, added, shared_handle=bool(case.get("shared_handle")))
     attach_priors(model, lik, case)
+    if case.get("copied"):
+        # the objective of a DEEP COPY of the model whose hyper-parameters are changed afterwards (what get_fantasy_model,
+        # pyro sampling and user code do): every term is a function of the copy's own current parameter values
+        model = copy.deepcopy(model)
+        lik = model.likelihood
+        crng = random.Random(case["hseed"] + 99)
+        with torch.no_grad():
+            for _, prm in model.named_parameters():
+                prm.add_(torch.tensor([crng.choice([-0.5, -0.25, 0.25, 0.5]) for _ in range(prm.numel())]).reshape(prm.shape))
     return model, lik, X, y
 
 
@@ -869,6 +879,15 @@ def run(out, ctx):
     nc = {k: max(1, int(v * ctx.get("scale", 1.0))) for k, v in nc.items()}   # scale < 1 only in builder sensitivity runs
     cases = [gen_case(rng, tier, fam, regime=BATCH_REGIMES[j % len(BATCH_REGIMES)] if fam == "batch" else None)
              for fam in ("single", "batch", "multitask", "shared", "samename", "sharedprior") for j in range(nc[fam])]
+    # objectives of deep copies with changed hyper-parameters (own stream)
+    crng = random.Random(seed * 7919 + 203)
+    for _ in range(max(1, int((12 if tier == "quick" else 120) * ctx.get("scale", 1.0)))):
+        c = gen_case(crng, tier, "single")
+        c["n"] = min(c["n"], 4); c["X"] = c["X"][:c["n"]]; c["y"] = c["y"][:c["n"]]; c["dyadic"] = c["n"] >= 4
+        if not c["priors"]:
+            c["priors"] = gen_priors(crng, p_any=1.0)
+        c["copied"] = True
+        cases.append(c)
     sums = [gen_sum_case(rng, tier) for _ in range(nc["sum"])]
     # the per-member-params call form and members of different sizes (own stream: the cases above stay what they were)
     srng = random.Random(seed * 7919 + 202)
@@ -915,6 +934,8 @@ def run(out, ctx):
                 "fast_computations.log_prob on/off), batched models (full batch shapes of 1-3 dims; kernel, mean, likelihood and data each with their OWN batch shape: any right-aligned sub-shape "
                 "with size-1 dims, incl. NON-batch modules with vector parameters (ARD) inside a batched objective and module batch shapes shorter than the data batch shape; every batch element "
                 "against its own dense objective), two same-kind kernel components with same-named priors on both (family samename), one prior object registered on two modules (family sharedprior), Kronecker multitask (2 tasks, num_data = n*t), models that keep a second handle to the inner kernel (the SGPR example's base_covar_module pattern) with a prior on it, IndependentModelList + "
+                "the same objectives on a deep copy of the model whose raw hyper-parameters were all shifted afterwards (family single, "
+                ">= 1 prior, registered by parameter name or by closure), "
                 "SumMarginalLogLikelihood (2-3 members; called as mll(outputs, targets) and as mll(outputs, targets, [x_1], ..., [x_k]) "
                 "with every member's own argument list; members of equal sizes and of pairwise different sizes 1..4 with "
                 "fixed / fixed+learned / Gaussian noise).  ExactMarginalLogLikelihood and LeaveOneOutPseudoLikelihood are both "
@@ -938,8 +959,8 @@ def run(out, ctx):
             got.setdefault(kind, {})[b] = d
         for kind in sorted(got):
             fam = case["family"]
-            lab = "%s:%s" % (kind, fam)
-            desc = dict(objective=kind, family=fam, n=case["n"], d=case["d"], kernel=case["kernel"], mean=case["mean"],
+            lab = "%s:%s%s" % (kind, fam, ":deepcopy" if case.get("copied") else "")
+            desc = dict(objective=kind, family=fam, copied=bool(case.get("copied")), n=case["n"], d=case["d"], kernel=case["kernel"], mean=case["mean"],
                         lik=case["lik"], pattern=case.get("pattern"), naming=case.get("naming"), npriors=len(case["priors"]), nadded=len(case["added"]),
                         fast_log_prob=case["fast_log_prob"], hseed=case["hseed"])
             out.case(desc, (case["n"] >= 2 and (case["priors"] or case["added"])) or case["n"] >= 3, label=lab)
